@@ -48,6 +48,7 @@ def dispatch (toks : List String) : String :=
   | "vfy" :: rest => Blue.Driver.C08.Vfy.handleVfy rest
   | "orph" :: rest => Blue.Driver.C08.Vfy.handleOrph rest
   | "flink" :: rest => Blue.Driver.C08.Flink.handle rest
+  | "vone" :: rest => Blue.Driver.C04.Vone.handle rest
   | _ => "bad-op"
 
 partial def loop (h : IO.FS.Stream) (out : IO.FS.Stream) (grp : Option Blue.Driver.C09.Ctx) : IO Unit := do
